@@ -112,8 +112,19 @@ func TestMulticast(t *testing.T) {
 		time.Sleep(100 * time.Millisecond)
 		after := consumers(path)
 		stillOpen := !closedWithin(p2, 300*time.Millisecond)
-		out.Put(map[string]interface{}{"t": round, "e": "mcast-leave", "players_ok": ok1 && ok2, "consumers_after_first_left": after, "second_still_connected": stillOpen})
+		// (3) the last player leaves as well: the session's membership is released, the proxy stops consuming
+		p2.Do("TEARDOWN", "rtsp://"+srv.Addr+path, map[string]string{"Session": p2.Session}, "", 2*time.Second)
 		p2.Close()
+		afterAll := -1
+		deadline := time.Now().Add(2 * time.Second)
+		for time.Now().Before(deadline) {
+			if afterAll = consumers(path); afterAll == 0 {
+				break
+			}
+			time.Sleep(10 * time.Millisecond)
+		}
+		out.Put(map[string]interface{}{"t": round, "e": "mcast-leave", "players_ok": ok1 && ok2, "consumers_after_first_left": after, "second_still_connected": stillOpen,
+			"consumers_after_all_left": afterAll})
 		pub.Close()
 	}
 }
